@@ -517,6 +517,11 @@ func execChild(args []string) {
 	}
 	childInit()
 	warmUp()
+	// the history of the process: every earlier top-level kind goes through every encoder under the same options
+	for _, pre := range c.Pre {
+		pc := caseSpec{Top: pre, V: c.V, O: c.O}
+		runCaseWith(&pc, *c.O, callEncoder)
+	}
 	if args[0] == "all" || strings.HasPrefix(args[0], "skip:") {
 		// skip:<names>: encoders that killed the process under an earlier option mask of the same case are not called
 		skip := map[string]string{}
